@@ -5,3 +5,4 @@ open ZCV.Props.C01
 #print axioms C01_unknown_key_rejected
 #print axioms C01_accept_iff_conforms
 #print axioms C01_nonconforming_rejected
+#print axioms C01_text_accept_iff_conforms
